@@ -207,3 +207,23 @@ package fs
 //@   ensures name_and_position_are_hashed [C09 except=anyEntry]: result == nil ==> collected(W, p[len(path):])
 //@   callsite os.Readlink trackresult target string: result0
 //@   ensures symlink_target_is_hashed [C09 except=anyEntry]: result == nil && mode.IsSymlink() ==> collected(W, target)
+
+// PathHasher.hash, outside the directory walk. A stored hash is read from the path ITSELF (LGet: never through
+// a symlink, or a link would hash like its target); for a top-level symlink the target's CONTENTS are hashed
+// only when the link leaves the repository — a link inside the repository is hashed by its (relative) target
+// name, so two links to different files with equal contents differ.
+//@ assume func (PathHasher).ensureRelative
+//@   pure
+//@ assume func (PathHasher).timestampHash
+//@ assume func (PathHasher).storeHash
+//@ func (PathHasher).hash
+//@   requires hasher != nil
+//@   opt nopanic=off
+//@   opt inline=off
+//@   opt precall=off
+//@   opt callbacks=pure
+//@   callsite os.Readlink trackresult linkdest string: result0
+//@   callsite xattr.Get never_through_a_link [C09]: false
+//@   callsite xattr.LGet of_the_path_itself [C09]: arg_path == path && arg_name == hasher.xattrName
+//@   callsite (PathHasher).fileHash contents_only_for_links_that_leave_the_repo [C09]: arg_filename == path && \
+//@      (called("os.Readlink") ==> !((hasher.ensureRelative(linkdest) != linkdest || !filepath.IsAbs(linkdest)) && !filepath.IsAbs(path)))
